@@ -47,6 +47,9 @@ def trees():
     out["user-markers-stacked"] = (m13, {"A": ("sort", m13, ((A_, False), (B_, True))), "B": ("xfer", ("dedup", m13), "it1")}, True)
     m14 = ("mat", ("tag", ("xfer", selx, "sq")), "m14")
     out["user-marker-sql"] = (m14, {"A": ("sel", m14, ("lt", A_, B_)), "B": ("xfer", ("proj", m14, ("a",)), "it1")}, True)
+    # a user-defined marker that already carries a lazy payload of its owner's, then materialized
+    m15 = ("mat", ("tagp", selx), "m15")
+    out["user-marker-with-payload"] = (m15, {"A": ("sort", m15, ((A_, False), (B_, True))), "B": ("xfer", ("dedup", m15), "it2")}, True)
     # a materialization requested on a tree that an earlier process() returned: its transfer already carries a payload, and that
     # payload is a lazy iterable because no materialization followed the transfer then (the hook contract allows that)
     m11 = ("mat", ("proc", ("xfer", selx, "it2")), "m11")
